@@ -6,6 +6,7 @@ use crate::gen;
 use crate::keys;
 use crate::proto::*;
 use crate::rt::{layer_build, layer_parse, parse_twice};
+use crate::specref::{self, RefPublic, RefSecret};
 use proptest::prelude::*;
 use serde::{Deserialize, Serialize};
 
@@ -145,6 +146,113 @@ impl Sub for AssertionBinding {
   }
 }
 
+/// (5) the authenticated encoding of (footer, assertion) agrees with an independent implementation of the specification for
+/// every pair of LENGTHS on a grid around the powers of two: a length prefix that is wrong for one particular length makes two
+/// different (footer, assertion) pairs encode alike (the crafted collision needs content no generator would find), but it
+/// also makes the library and the reference disagree about every token that carries a piece of that length.
+#[derive(Clone, Debug, Serialize, Deserialize)]
+pub struct PaeCase {
+  pub lf: u16,
+  pub la: u16,
+  pub lm: u16,
+  pub fill: u8,
+}
+
+pub struct PaeGrid {
+  pub proto: Proto,
+  pub layer: Layer,
+}
+
+pub const PAE_LENGTHS: [u16; 30] = [0, 1, 7, 8, 9, 15, 16, 17, 31, 32, 33, 47, 48, 49, 55, 56, 57, 63, 64, 65, 72, 127, 128, 129, 191, 192, 255, 256, 257, 1024];
+
+fn filler(n: u16, fill: u8, salt: u8) -> String {
+  // printable ASCII, no two pieces alike; fill 1: the piece starts with bytes that read as a little-endian length
+  let mut s: String = (0..n).map(|i| (b'a' + ((i as u32 * 7 + fill as u32 * 3 + salt as u32) % 26) as u8) as char).collect();
+  if fill % 2 == 1 && n >= 8 {
+    s.replace_range(0..8, "A\0\0\0\0\0\0\0");
+  }
+  s
+}
+
+impl Sub for PaeGrid {
+  type Case = PaeCase;
+  fn name(&self) -> String {
+    format!("C06/pae-grid/{}/{}", self.proto.label(), self.layer.label())
+  }
+  fn check(&self, c: &PaeCase, cl: &mut Classes) -> Verdict {
+    let p = self.proto;
+    let v = p.version();
+    let footer = filler(c.lf, c.fill, 1);
+    let assertion = filler(c.la, c.fill, 2);
+    // core: the message is the plaintext; builder layers: the message travels as a claim (`layer_build`), and the token the
+    // reference builds carries a JSON object
+    let msg = filler(c.lm, c.fill & 2, 3);
+    let ref_payload = if self.layer == Layer::Core { msg.clone() } else { format!("{{\"data\":\"{}\"}}", msg) };
+    let seed: [u8; 32] = gen::arr32(&[c.fill.wrapping_mul(31).wrapping_add(p as u8); 32]);
+    let nonce: Vec<u8> = (0..32u8).map(|i| i.wrapping_mul(11).wrapping_add(c.fill)).collect();
+    let km = keys::material(p, &seed);
+    let lk = km.lib().expect("valid key");
+    let fo = if c.lf == 0 && c.fill % 2 == 0 { None } else { Some(footer.as_str()) };
+    let ao = if c.la == 0 && c.fill % 2 == 0 { None } else { Some(assertion.as_str()) };
+    cl.tag(format!("{}:{}", p.label(), self.layer.label()));
+    cl.tag(format!("footer-len:{}", if c.lf % 64 == 0 && c.lf > 0 { "multiple-of-64" } else if c.lf == 0 { "0" } else { "other" }));
+    cl.tag(format!("assertion-len:{}", if c.la % 64 == 0 && c.la > 0 { "multiple-of-64" } else if c.la == 0 { "0" } else { "other" }));
+    cl.nontrivial(c.lf > 0 || c.la > 0);
+    let t = match layer_build(p, self.layer, &lk, &nonce[..p.nonce_len()], &msg, fo, ao) {
+      Ok(t) => t,
+      Err(e) => vio!("C06:pae-grid:build-failed:{}:{}", p.label(), e.variant; "build with footer of {} and assertion of {} bytes failed: {}", c.lf, c.la, e.text),
+    };
+    // the batteries-included layer adds claims: the reference then only has to ACCEPT the token
+    let body_ok = |m: &[u8]| if self.layer == Layer::Core { m == msg.as_bytes() } else { std::str::from_utf8(m).map(|x| x.contains(msg.as_str())).unwrap_or(false) };
+    if p.is_local() {
+      match specref::local_decrypt(v, &seed, &t, footer.as_bytes(), assertion.as_bytes()) {
+        Ok(m) if body_ok(&m) => {}
+        other => vio!("C06:pae-grid:reference-disagrees:{}:{}", p.label(), self.layer.label(); "token built with a footer of {} bytes and an assertion of {} bytes (message {} bytes) is not what the specification authenticates for that pair: reference gave {:?}", c.lf, c.la, c.lm, other.map(|m| m.len())),
+      }
+      let t2 = specref::local_encrypt(v, &seed, &nonce[..p.nonce_len()], ref_payload.as_bytes(), footer.as_bytes(), assertion.as_bytes());
+      match layer_parse(p, self.layer, &lk, &t2, fo, ao) {
+        Ok(o) if self.layer != Layer::Core || o.message().as_deref() == Some(msg.as_str()) => {}
+        Ok(o) => vio!("C06:pae-grid:wrong-message:{}:{}", p.label(), self.layer.label(); "reference token returned {:?}", o.message().map(|m| m.len())),
+        // a builder-layer parser may refuse the reference token for its claims: only format / authentication errors count
+        Err(e) if self.layer != Layer::Core && matches!(e.class, ErrClass::Claim | ErrClass::Plaintext) => cl.tag("reference-token-refused-for-claims"),
+        Err(e) => vio!("C06:pae-grid:reference-token-rejected:{}:{}:{}", p.label(), self.layer.label(), e.variant; "the specification's token for a footer of {} bytes and an assertion of {} bytes is rejected under the same pair: {}", c.lf, c.la, e.text),
+      }
+    } else {
+      let (sk, pk) = keys::key_bytes(p, &seed);
+      let unc;
+      let (rs, rp) = match p {
+        Proto::V3P => {
+          unc = keys::p384_from_seed(&seed).2;
+          (RefSecret::P384 { scalar: &sk, uncompressed: &unc, compressed: &pk }, RefPublic::P384 { uncompressed: &unc, compressed: &pk })
+        }
+        _ => (RefSecret::Ed { seed: &sk[..32], public: &pk }, RefPublic::Ed(&pk)),
+      };
+      match specref::public_verify(v, &rp, &t, footer.as_bytes(), assertion.as_bytes()) {
+        Ok(m) if body_ok(&m) => {}
+        other => vio!("C06:pae-grid:reference-disagrees:{}:{}", p.label(), self.layer.label(); "token signed with a footer of {} bytes and an assertion of {} bytes (message {} bytes) does not verify under the specification for that pair: reference gave {:?}", c.lf, c.la, c.lm, other.map(|m| m.len())),
+      }
+      if let Ok(t2) = specref::public_sign(v, &rs, ref_payload.as_bytes(), footer.as_bytes(), assertion.as_bytes()) {
+        match layer_parse(p, self.layer, &lk, &t2, fo, ao) {
+          Ok(_) => {}
+          Err(e) if self.layer != Layer::Core && matches!(e.class, ErrClass::Claim | ErrClass::Plaintext) => cl.tag("reference-token-refused-for-claims"),
+          Err(e) => vio!("C06:pae-grid:reference-token-rejected:{}:{}:{}", p.label(), self.layer.label(), e.variant; "the specification's token for a footer of {} bytes and an assertion of {} bytes is rejected under the same pair: {}", c.lf, c.la, e.text),
+        }
+      }
+    }
+    Verdict::Pass
+  }
+}
+
+fn pae_subs() -> Vec<PaeGrid> {
+  let mut v = vec![];
+  for proto in Proto::WITH_ASSERTION {
+    for layer in Layer::ALL {
+      v.push(PaeGrid { proto, layer });
+    }
+  }
+  v
+}
+
 fn case(proto: Proto, layer: Layer) -> BoxedStrategy<AssertCase> {
   let rel = prop_oneof![
     2 => Just(Related::Same),
@@ -174,11 +282,12 @@ fn all_subs() -> Vec<AssertionBinding> {
 }
 
 pub fn subs() -> Vec<Box<dyn DynSub>> {
-  all_subs().into_iter().map(|s| Box::new(s) as Box<dyn DynSub>).collect()
+  all_subs().into_iter().map(|s| Box::new(s) as Box<dyn DynSub>).chain(pae_subs().into_iter().map(|s| Box::new(s) as Box<dyn DynSub>)).collect()
 }
 
 pub fn run(ctx: &Ctx) -> EvidenceMeta {
   let subs = all_subs();
+  let paes = pae_subs();
   let mut jobs: Vec<Job> = vec![];
   for s in &subs {
     let n = (ctx.n(8000, 80_000) / s.proto.cost().min(20)).max(300);
@@ -204,11 +313,31 @@ pub fn run(ctx: &Ctx) -> EvidenceMeta {
       ctx.enumerate(s, cases.into_iter(), false)
     }));
   }
+  // (5) grid of piece lengths against the independent implementation (all pairs at the core layer for local tokens, a
+  // thinner grid for signatures and the builder layers)
+  for s in &paes {
+    jobs.push(Box::new(move || {
+      let mut cases = vec![];
+      for (i, &lf) in PAE_LENGTHS.iter().enumerate() {
+        for (j, &la) in PAE_LENGTHS.iter().enumerate() {
+          let dense = s.layer == Layer::Core && s.proto.is_local();
+          let thin = if s.proto == Proto::V3P { 7 } else { 3 };
+          if dense || (i + 2 * j) % thin == 0 || lf == 64 || la == 64 {
+            if s.proto == Proto::V3P && ctx.quick() && (i + j) % 2 == 1 && lf != 64 && la != 64 {
+              continue;
+            }
+            cases.push(PaeCase { lf, la, lm: [0u16, 1, 64, 20][(i + j) % 4], fill: ((i * 31 + j) % 4) as u8 });
+          }
+        }
+      }
+      ctx.enumerate(s, cases.into_iter(), false)
+    }));
+  }
   run_jobs(jobs);
   EvidenceMeta {
     rule: "v3/v4 local/public x 3 layers; token built with assertion A in {none, explicit empty, 12-char generated tag + text}; related A' by construction (same, none<->empty, prefix, extension, case, last byte, unrelated). \
            Oracle: (1) accepted with the original message iff norm(A') == norm(A); (2) token length equals that of the token built without A (deterministic layers) and neither A, base64url(A), hex(A) occurs in the token text nor A's bytes in the decoded payload/footer; \
-           (3) re-splitting the same footer||assertion concatenation at another point (footer segment rewritten accordingly) is rejected; (4) local core tokens built with A and A' have equal length and differ. \
+           (3) re-splitting the same footer||assertion concatenation at another point (footer segment rewritten accordingly) is rejected; (4) local core tokens built with A and A' have equal length and differ; (5) for footer and assertion lengths on a 30 x 30 grid around the powers of two (0..1024 bytes, pieces that start like a little-endian length included) the library's token is accepted by an independent implementation of the specification under the same pair and that implementation's token by the library. \
            Non-trivial = norm(A) != norm(A'); distinct by case."
       .into(),
     assumptions: vec!["footer and assertion consistently swapped on both sides would not break the property and is not detected".into()],
